@@ -331,9 +331,9 @@ add("C19",
         assert (
             instance.parent is None
         ), "Instance already belongs to a different definition\""""), "Definition.add_child|definition_add_child"),
-    Mutant("E3 top instance installed without announcement (seeded C19-A)",
+    Mutant("E5 wrapper instance installed although only the definition was announced (seeded C19-A)",
            (N, "            top.is_top_instance = True\n            self.top_instance = top", "            top.is_top_instance = True\n            self._top_instance = top"),
-           None),  # the Definition was announced; the wrapper instance is not — see DESIGN (argument sufficiency is not decided)
+           "Netlist.top_instance.setter|Netlist._top_instance|top"),
     Mutant("E3 data deleted without announcement",
            ("spydrnet/ir/first_class_element.py", "        global_callback._call_dictionary_pop(self, item)\n        return self._data.pop(item)", "        return self._data.pop(item)"),
            "FirstClassElement.pop|FirstClassElement._data pop"),
